@@ -401,14 +401,13 @@ Lemma init_len_split : forall ts n, init_len ts = Some n ->
   exists pre o flat c post semi r,
     ts = (pre ++ o :: flat ++ c :: post ++ [semi]) ++ r /\
     n = length (pre ++ o :: flat ++ c :: post ++ [semi]) /\
-    pre <> [] /\ forallb plain pre = true /\ is_lbrace o = true /\ forallb plain flat = true /\ is_rbrace c = true /\
+    forallb plain pre = true /\ is_lbrace o = true /\ forallb plain flat = true /\ is_rbrace c = true /\
     inner post /\ is_symbol semi semicolon = true.
 Proof.
   intros ts n H. unfold init_len in H.
   destruct (take_plain ts) as [pre r1] eqn:Hp1.
   destruct r1 as [| o r2]; [discriminate |].
   destruct (is_lbrace o) eqn:Ho; [| discriminate].
-  destruct (Nat.eqb (length pre) 0) eqn:Hne; [discriminate |]. cbn [negb andb] in H.
   destruct (take_plain r2) as [flat r3] eqn:Hp2.
   destruct r3 as [| c r4]; [discriminate |].
   destruct (is_rbrace c) eqn:Hc; [| discriminate].
@@ -424,7 +423,6 @@ Proof.
   exists pre, o, flat, c, post, semi, r. repeat split; try assumption.
   - rewrite E1, E2, E4. list_norm. reflexivity.
   - subst m. rewrite !app_length. cbn [length]. rewrite !app_length. cbn [length]. rewrite !app_length. cbn [length]. lia.
-  - intros Epre. subst pre. discriminate.
 Qed.
 
 Lemma items_of_off_eq : forall l o1 o2 ts ds, items_of l o1 ts ds -> o1 = o2 -> items_of l o2 ts ds.
@@ -461,7 +459,7 @@ Proof.
   destruct (init_len ts) as [n |] eqn:Hil.
   { (* a statement with a brace initialiser *)
     apply init_len_split in Hil.
-    destruct Hil as (pre & o & flat & c & post & semi & r & Ets & En & Hne & Hpre & Ho & Hflat & Hc & Hpost & Hsemi).
+    destruct Hil as (pre & o & flat & c & post & semi & r & Ets & En & Hpre & Ho & Hflat & Hc & Hpost & Hsemi).
     assert (Eskip : skipn n ts = r).
     { rewrite En, Ets. apply skipn_app_exact. }
     rewrite Eskip in H. apply IHf in H. destruct H as (used & Er & Hitems).
